@@ -75,6 +75,7 @@ def run(ctx):
     U = I.utils.UnknownOperationResolver
     T = I.tree
     tmap = {"lucene": None, "and": T.AndOperation, "or": T.OrOperation, "bool": T.BoolOperation}
+    hist = trees.SharedObjects(ctx, rng, "UnknownOperationResolver")
     for i in range(n):
         origin, d = trees.mixed_tree(ctx, rng, p_parsed=0.5, layout="partial", names=True,
                                      ops=["UnknownOperation", "UnknownOperation", "AndOperation", "OrOperation", "BoolOperation"])
@@ -104,6 +105,9 @@ def run(ctx):
         res2 = U(resolve_to=tmap[target], add_head=add_head)(res)
         if common.dump_tree(res2) != common.dump_tree(I.visitor.TreeTransformer().visit(res)):
             ctx.fail("resolving again changes the tree", info)
+        if i % 3 == 0:
+            hist.check((target, add_head), lambda: U(resolve_to=tmap[target], add_head=add_head),
+                       lambda r, t: common.dump_tree(r(t)), d, info)
         reqs.append({"op": "resolve", "tree": d, "to": target, "add_head": add_head})
         exp.append(out)
     if ctx.model_ok:
